@@ -86,8 +86,67 @@ def handleLink (j : Json) : R Json := do
     | .panic => Json.mkObj [("r", "panic")]
     | .fuel => Json.mkObj [("r", "fuel")]
 
-/-- handler of op "LINK" -/
+/-! op "LINKP": a linking PROGRAM over several named trees (tree `""` is the one under test).
+
+  case:   {"op":"LINKP","trees":[[name,T],...],"steps":[step,...]}
+  step:   ["build",name]                    construct the tree with the public constructors
+          ["buildKids",name]                construct everything below the top scope, not the top scope itself
+          ["self",name]                     `ApplyNamespace(nil,"")` on the root (for a top scope prepared by
+                                            "buildKids" this is its `NewScopeSchema`; later on, `ApplySelf()`)
+          ["apply",name,ns,from]            `root.ApplyNamespace(from.Objects(), ns)`
+          ["applyAt",name,path,ns,from]     the same on the scope at `path` inside the tree (from "" = nil table)
+  result: {"r":"ok","v":{"trees":[[name,[[path,target],...],valid],...]}} for all trees in the given order,
+          {"r":"panic"} if any step panics. -/
+
+def setTree (name : String) (t : LTy) : List (String × LTy) → List (String × LTy)
+  | [] => [(name, t)]
+  | (n, t') :: rest => if n == name then (n, t) :: rest else (n, t') :: setTree name t rest
+
+def tableOf (store : List (String × LTy)) (src : String) : Table :=
+  match lookupS src store with
+  | some (.scope objs _) => selfTable src [] objs
+  | _ => []
+
+def splitPath (s : String) : Path := if s.isEmpty then [] else s.splitOn "/"
+
+def runStep (store : List (String × LTy)) (step : List String) : Except String (Out (List (String × LTy))) :=
+  let upd (name : String) (f : LTy → Out LTy) : Except String (Out (List (String × LTy))) :=
+    match lookupS name store with
+    | none => .error s!"unknown tree {name}"
+    | some t => .ok ((f t).bind fun t' => .ok (setTree name t' store))
+  match step with
+  | ["build", name] => upd name (build name [])
+  | ["buildKids", name] => upd name fun t =>
+      match t with
+      | .scope objs root => (build name [] objs).bind fun objs' => .ok (.scope objs' root)
+      | t => build name [] t
+  | ["self", name] => upd name (applyNs name [] "" [])
+  | ["apply", name, ns, src] => upd name (applyNs name (tableOf store src) ns [])
+  | ["applyAt", name, path, ns, src] => upd name (applyAt name (tableOf store src) ns (splitPath path) [])
+  | _ => .error s!"bad step {step}"
+
+def handleLinkP (j : Json) : R Json := do
+  let trees ← (← arrField j "trees").toList.mapM fun e => do
+    let p ← e.getArr?
+    return (← getStr p[0]!, ← decL p[1]!)
+  let steps ← (← arrField j "steps").toList.mapM fun e => do
+    let a ← e.getArr?
+    a.toList.mapM getStr
+  let mut store : Out (List (String × LTy)) := .ok trees
+  for st in steps do
+    match store with
+    | .ok s => store ← runStep s st
+    | _ => pure ()
+  return match store with
+    | .ok s => Json.mkObj [("r", "ok"), ("v", Json.mkObj [("trees", .arr (s.map fun (n, t) =>
+        Json.arr #[.str n, .arr ((occs n none [] t).map encOcc).toArray, .bool (validateRefs t)]).toArray)])]
+    | .err _ => Json.mkObj [("r", "err")]
+    | .panic => Json.mkObj [("r", "panic")]
+    | .fuel => Json.mkObj [("r", "fuel")]
+
+/-- handler of ops "LINK" and "LINKP" -/
 def linkHandler (op : String) (j : Json) : Option (R Json) :=
-  if op == "LINK" then some (handleLink j) else none
+  if op == "LINK" then some (handleLink j)
+  else if op == "LINKP" then some (handleLinkP j) else none
 
 end Arca.Dispatch
